@@ -41,12 +41,14 @@ MC_ScalarsOne == { Scal(Q(-23, 2), Yes(I(-12)), Yes(I(-20)), 7) }
 N1 == <<"b2">>
 N2 == <<"B10", "b2">>
 N3 == <<"B10", "a_1", "b2">>      \* Python order: "B10" < "a_1" < "b2"
+N2L == <<"beta_time_B10", "beta_time_b2">>   \* long names that share their first ten characters (the F12 report shows ten)
 Th(names, v, lb, ub, g) == [names |-> names, v |-> v, lb |-> lb, ub |-> ub, g |-> g]
 MC_Theta1 == { Th(N1, <<Q(1, 2)>>, <<No>>, <<No>>, <<2>>),
                Th(N1, <<I(0)>>, <<Yes(I(0))>>, <<No>>, <<0>>),                 \* on its lower bound
                Th(N1, <<I(-3)>>, <<No>>, <<Yes(I(5))>>, <<-1>>) }
 MC_Theta2 == { Th(N2, <<I(2), Q(-1, 2)>>, <<No, No>>, <<No, No>>, <<3, -4>>),
-               Th(N2, <<I(1), I(1)>>, <<Yes(I(-10)), No>>, <<No, Yes(I(1))>>, <<0, 0>>) }   \* equal estimates, upper bound active
+               Th(N2, <<I(1), I(1)>>, <<Yes(I(-10)), No>>, <<No, Yes(I(1))>>, <<0, 0>>),    \* equal estimates, upper bound active
+               Th(N2L, <<I(3), Q(-1, 4)>>, <<No, No>>, <<No, No>>, <<1, -2>>) }
 MC_Theta3 == { Th(N3, <<I(0), Q(3, 2), I(-2)>>, <<No, No, No>>, <<No, No, No>>, <<1, 2, -2>>),
                Th(N3, <<Q(1, 2), Q(1, 2), I(3)>>, <<Yes(Q(1, 2)), No, No>>, <<No, No, Yes(I(10))>>, <<0, 0, 0>>) }
 MC_Theta(K) == IF K = 1 THEN MC_Theta1 ELSE IF K = 2 THEN MC_Theta2 ELSE MC_Theta3
